@@ -12,7 +12,28 @@
      dur_seq b rs             consecutive duration() calls (one oracle value each)
      positive_params b        0 < base b, 0 < factor b, 0 < cap b   -- "every positive base, factor and cap"
      bounds b                 positive_params b and cap b <= max_ms (the cap is a Duration):
-                              only where a delay is said to EQUAL min(cap, base*factor^n) *)
+                              only where a delay is said to EQUAL min(cap, base*factor^n)
+     outages_r b rss          the waits of successive outages on one StreamManager, one list
+                              of oracle values (jitter draws) per outage
+     stream_manager_backoff   mkBackoff false 0 0 0 0: what StreamManager.resume() declares
+     float_image x x'         x' may be what float64 arithmetic makes of the real value x:
+                              x' = x when x < 2^53, x' >= 2^52 otherwise (+Inf included)
+
+   WHAT IS PROVED ABOUT float64, AND WHAT IS NOT.  The code computes the delay in float64
+   (float64(Cap), float64(Base) * math.Pow(float64(Factor), float64(n)), math.Min, the
+   saturation at maxMs, then int64(...)); the model computes in Z, where nothing rounds or
+   overflows.  "For every n however large" is therefore true of the model for a different
+   reason than of the code (Pow saturating at +Inf).  Proved: C19_float_robust -- the
+   integer result is what comes out for ANY float_image of the cap and of the product, so
+   the only thing assumed of the float path is that float64(int), one multiplication and
+   math.Pow on positive integers are exact below 2^53 and stay >= 2^52 (or +Inf) from 2^53
+   on; and C19_float_exact_region -- every delay the code can return is an integer below
+   2^53 ms (max_ms is about 2^43.07), so the final int64 conversion is exact.  NOT proved:
+   that Go's math.Pow has that property (square-and-multiply on mantissas: every partial
+   product divides the result, hence is exact while the result is below 2^53).  That part
+   is checked differentially by the correspondence run (attempt numbers and parameters
+   placed around 2^53, max_ms, 2^63 and the float64 overflow of factor^n and
+   base*factor^n; DESIGN.md 6.C19 "Partial"). *)
 From Coq Require Import List ZArith Bool.
 From XV Require Import Gen.Generated Model.Backoff Proofs.BackoffP.
 Import ListNotations.
@@ -66,6 +87,19 @@ Theorem C19_formula_seq_after_reset : forall b rs0 rs,
   map (fun k => Dur (expo (set_default b) (Z.of_nat k) * millisecond)) (seq 0 (length rs)).
 Proof. intros b rs0 rs. exact (dur_seq_after_reset rs0 rs b). Qed.
 
+(* "Bounded", through the stateful sequence, with or without jitter: the k-th wait is a
+   genuine Duration in [0, min(cap, base*factor^(attempt+k)) ms] (saturated at max_ms),
+   strictly below it with jitter, and never above the cap. *)
+Theorem C19_seq_bounded : forall b rs,
+  positive_params (set_default b) -> 0 <= attempt b ->
+  Forall2 (fun k o => exists ns, o = Dur ns /\
+             0 <= ns <= Z.min max_ms (expo (set_default b) (attempt b + Z.of_nat k)) * millisecond /\
+             (no_jitter b = false ->
+              ns < Z.min max_ms (expo (set_default b) (attempt b + Z.of_nat k)) * millisecond) /\
+             0 <= ns <= cap (set_default b) * millisecond /\ ns < 2 ^ 63)
+          (seq 0 (length rs)) (snd (dur_seq b rs)).
+Proof. intros b rs. exact (dur_seq_within rs b). Qed.
+
 (* Successive outages handled by one StreamManager (each retry loop runs on a fresh
    back-off value, i.e. after reset): whatever the numbers of failed attempts of the
    earlier outages, the wait after the k-th failed attempt of an outage is bounded by
@@ -76,6 +110,43 @@ Theorem C19_outages_restart : forall b ms,
   map (fun m => map (fun k => Dur (expo (set_default b) (Z.of_nat k) * millisecond))
                     (seq 0 (Z.to_nat m))) ms.
 Proof. intros b ms. exact (outages_spec ms b b eq_refl). Qed.
+
+(* The same with or without jitter, for every oracle: the waits of every outage are the
+   per-attempt queries at 0, 1, 2, ... -- whatever the earlier outages were. *)
+Theorem C19_outages_restart_any : forall b rss,
+  positive_params (set_default b) ->
+  outages_r b rss =
+  map (fun rs => map (fun kr => snd (dur_for_attempt b (Z.of_nat (fst kr)) (snd kr)))
+                     (combine (seq 0 (length rs)) rs)) rss.
+Proof. intros b rss. exact (outages_r_spec rss b b eq_refl). Qed.
+
+(* ... hence bounded: the wait after the k-th failed attempt of any outage lies in
+   [0, min(cap, base*factor^k) ms], strictly below with jitter. *)
+Theorem C19_outages_bounded : forall b rss,
+  positive_params (set_default b) ->
+  Forall2 (fun rs os =>
+     Forall2 (fun k o => exists ns, o = Dur ns /\
+                0 <= ns <= Z.min max_ms (expo (set_default b) (Z.of_nat k)) * millisecond /\
+                (no_jitter b = false ->
+                 ns < Z.min max_ms (expo (set_default b) (Z.of_nat k)) * millisecond) /\
+                0 <= ns <= cap (set_default b) * millisecond /\ ns < 2 ^ 63)
+             (seq 0 (length rs)) os)
+    rss (outages_r b rss).
+Proof. exact outages_r_within. Qed.
+
+(* The instance the code reaches: StreamManager.resume() declares the zero value (jitter
+   ON, Base/Factor/Cap unset).  No free parameter: for every number of outages, every
+   number of failed attempts in each and every jitter draw, the wait after the k-th failed
+   attempt is in [0, min(default_cap, default_base * default_factor^k) ms) and at most
+   three minutes. *)
+Theorem C19_stream_manager_waits : forall rss,
+  Forall2 (fun rs os =>
+     Forall2 (fun k o => exists ns, o = Dur ns /\
+                0 <= ns < Z.min default_cap (default_base * default_factor ^ Z.of_nat k) * millisecond /\
+                ns <= 3 * 60 * 1000000000)
+             (seq 0 (length rs)) os)
+    rss (outages_r stream_manager_backoff rss).
+Proof. exact stream_manager_waits. Qed.
 
 (* Non-decreasing in n (the formula, and the delays returned without jitter -- for every
    positive cap, saturated or not). *)
@@ -109,6 +180,17 @@ Theorem C19_jitter_range : forall b n r,
              0 <= ns < Z.min max_ms (expo (set_default b) n) * millisecond.
 Proof. exact dfa_jitter. Qed.
 
+(* ... what the draw is: the oracle value r (the random source) reduced modulo EXACTLY the
+   delay the same attempt has without jitter -- so the model's jitter is not a constant:
+   the argument of the draw is min(cap, base*factor^n) ms (saturated), the result covers
+   [0, that) (next theorem) and is the identity on it. *)
+Theorem C19_jitter_draw : forall b n r,
+  no_jitter b = false -> positive_params (set_default b) -> 0 <= n ->
+  snd (dur_for_attempt b n r) =
+    Dur (r mod (Z.min max_ms (expo (set_default b) n) * millisecond)) /\
+  0 < Z.min max_ms (expo (set_default b) n) * millisecond.
+Proof. exact dfa_jitter_draw. Qed.
+
 (* ... the model allows every Duration of that range (it does not fix how the draw is
    made), and the code's whole-millisecond draw rand.Int63n(d) * time.Millisecond is one
    admissible way. *)
@@ -128,6 +210,18 @@ Proof. exact ms_draw_admissible. Qed.
 Theorem C19_exec_is_formula : forall b n,
   positive_params b -> 0 <= n -> expo_exec b n = expo b n.
 Proof. exact expo_exec_spec. Qed.
+
+(* float64 (see the header): the delay in ms is the same for every admissible float64
+   image c' of the cap and p' of base*factor^n, and always an integer below 2^53. *)
+Theorem C19_float_robust : forall b n c' p',
+  positive_params b -> 0 <= n ->
+  float_image (cap b) c' -> float_image (base b * factor b ^ n) p' ->
+  Z.min max_ms (Z.min c' p') = Z.min max_ms (expo b n).
+Proof. exact float_robust. Qed.
+
+Theorem C19_float_exact_region : forall b n,
+  positive_params b -> 0 <= n -> 0 < Z.min max_ms (expo b n) < 2 ^ 53.
+Proof. exact float_exact_region. Qed.
 
 (* Defaults.  The model's defaults ARE the code's constants (Generated.v is regenerated
    from /repo on every run; what is needed of them is BackoffP.defaults_ok, re-proved
@@ -155,9 +249,24 @@ Example C19_example :
   snd (dur_for_attempt (fresh true 20 3 1000) 2147483648 0) = Dur 1000000000 /\
   snd (dur_for_attempt (fresh false 20 3 1000) 2 1234567890) = Dur 154567890 /\
   positive_params (set_default (fresh true 3 7 (2 ^ 62))) /\
-  snd (dur_for_attempt (fresh true 3 7 (2 ^ 62)) 15 0) = Dur 9223372036854000000.
+  snd (dur_for_attempt (fresh true 3 7 (2 ^ 62)) 15 0) = Dur 9223372036854000000 /\
+  (* the StreamManager's value is inside the hypotheses; two outages with jitter (draws given) on a
+     value with explicit parameters and a stale attempt count: the second outage restarts *)
+  positive_params (set_default stream_manager_backoff) /\
+  outages_r (mkBackoff false 20 2 180000 7) [[5000000; 39999999; 40000000]; [19999999; 123456789]]
+  = [[Dur 5000000; Dur 39999999; Dur 40000000]; [Dur 19999999; Dur 3456789]] /\
+  (* float images: 2^53 + 1 may become 2^53, 3 * 7^30 may become +Inf or lose its low bits *)
+  float_image (2 ^ 53 + 1) (2 ^ 53) /\ float_image (3 * 7 ^ 30) (2 ^ 70) /\ float_image 180000 180000.
 Proof.
-  repeat split; try reflexivity; try exact huge_cap_saturates; cbn; discriminate.
+  split; [repeat split; try reflexivity; cbn; discriminate|].
+  do 3 (split; [reflexivity|]).
+  split; [repeat split; try reflexivity; cbn; discriminate|].
+  split; [exact huge_cap_saturates|].
+  split; [exact (bounds_positive _ (bounds_all_zero false 0))|].
+  split; [vm_compute; reflexivity|].
+  unfold float_image.
+  repeat split; intros H; vm_compute in H |- *; try reflexivity; try discriminate;
+    try (exfalso; apply H; reflexivity).
 Qed.
 
 Print Assumptions C19_bounded.
@@ -167,6 +276,13 @@ Print Assumptions C19_seq_is_query.
 Print Assumptions C19_formula_seq.
 Print Assumptions C19_formula_seq_after_reset.
 Print Assumptions C19_outages_restart.
+Print Assumptions C19_seq_bounded.
+Print Assumptions C19_outages_restart_any.
+Print Assumptions C19_outages_bounded.
+Print Assumptions C19_stream_manager_waits.
+Print Assumptions C19_jitter_draw.
+Print Assumptions C19_float_robust.
+Print Assumptions C19_float_exact_region.
 Print Assumptions C19_monotone.
 Print Assumptions C19_monotone_delays.
 Print Assumptions C19_reaches_cap.
